@@ -445,6 +445,20 @@ func allTargets() []*target {
 				att := type3.NewRateLimitedAttester(&memCache{m: map[string]*type3.ClientState{}})
 				_ = att.VerifyRequest(*r, a[1], a[2], a[3])
 			}})
+		add(&target{name: "type3.Attester.VerifyRequest+FinalizeIndex", heavy: true, packed: 5, fields: []int{0, 1, 2, 3, 85, 86},
+			seeds: [][]byte{pack(x.req3, x.blind3, x.client3, x.anon, x.blindedReqKey)},
+			run: func(in []byte) {
+				// one attester sees the request check and then the index computation for the same client key,
+				// whatever the check answered (a refused request must not leave anything behind that breaks the next call)
+				a := split(in, 5)
+				r := new(type3.RateLimitedTokenRequest)
+				if !r.Unmarshal(a[0]) {
+					return
+				}
+				att := type3.NewRateLimitedAttester(&memCache{m: map[string]*type3.ClientState{}})
+				_ = att.VerifyRequest(*r, a[1], a[2], a[3])
+				_, _ = att.FinalizeIndex(a[2], a[1], a[4], a[3])
+			}})
 		add(&target{name: "type3.Attester.FinalizeIndex", heavy: true, packed: 4, fields: []int{0, 1},
 			seeds: [][]byte{pack(x.client3, x.blind3, x.blindedReqKey, x.anon)},
 			run: func(in []byte) {
